@@ -8,7 +8,7 @@ from . import lincommon as lc
 
 PROP = "C09"
 HOSTILE = ('scale', 'mean', 'special')
-MONITORS = ("WF", "DENS", "CACHE")
+MONITORS = ("WF", "DENS", "CACHE", "FORM")
 ANCHORS = [("conditional.py", "ConditionalGaussianPDF.affine_conditional_transformation"),
            ("conditional.py", "ConditionalIdentityGaussianPDF.affine_conditional_transformation"),
            ("conditional.py", "NNControlGaussianConditional.affine_conditional_transformation")]
